@@ -19,6 +19,7 @@ ENUMS = {'Color': {'base': 'byte', 'syms': {'Red': 1, 'Green': 2, 'Blue': 7}, 'f
 STRUCTS = {
     'Pt': [('x', 'short'), ('y', 'short')],
     'Big': [('l', 'long'), ('u', 'ulong')],
+    'Dp1': [('b', 'ubyte'), ('c', 'uint')], 'Dp2': [('a', 'ubyte'), ('c', 'uint')], 'Dp3': [('a', 'ubyte'), ('b', 'ushort')],
     'S1': [('a', 'ubyte')], 'S2': [('a', 'ubyte'), ('b', 'ubyte')], 'S2s': [('a', 'ushort')], 'S3': [('a', 'ubyte'), ('b', 'ubyte'), ('c', 'ubyte')],
     'Point': [('x', 'int'), ('y', 'int')],
     'Tri': [('a', 'int'), ('pts', ('arr', 'Point', 3)), ('tail', 'int'), ('id', 'short')],
@@ -47,6 +48,10 @@ TABLES = {
     'DepOnly': [('n', 'int', 0), ('s', 'string', None)],
     'Tiny': [('n1', ('nested', 'S1'), None), ('n2', ('nested', 'S2'), None), ('n2s', ('nested', 'S2s'), None), ('n3', ('nested', 'S3'), None),
              ('n4', ('nested', 'Pt'), None), ('n8', ('nested', 'Point'), None), ('s1', 'S1', None), ('s3', 'S3', None), ('k', 'int', 0)],
+    'Item': [('payload', ('nested', 'Sub'), None), ('id', 'int', 0)],
+    'Twin': [('a', ('nested', 'Sub'), None), ('b', ('nested', 'Sub'), None), ('items', ('vec', 'Item'), None), ('n', 'int', 0)],
+    'DpT': [('d1', 'Dp1', None), ('d2', 'Dp2', None), ('d3', 'Dp3', None), ('v1', ('vec', 'Dp1'), None), ('n', 'int', 0)],
+    'Multi': [('xs', ('vec', 'DepMid'), None), ('a', 'DepMid', None), ('b', 'DepMid', None), ('ys', ('vec', 'DepLast'), None)],
     'Sub': [('id', 'uint', 0), ('tag', 'string', None), ('pt', 'Pt', None)],
     'Root': [('b', 'bool', False), ('i8', 'byte', -3), ('u8', 'ubyte', 0), ('i16', 'short', 0), ('u16', 'ushort', 500),
              ('i32', 'int', 0), ('u32', 'uint', 0), ('i64', 'long', 0), ('u64', 'ulong', 0), ('f32', 'float', 0.0),
@@ -61,7 +66,7 @@ TABLES = {
 REQUIRED = {('Sub', 'tag'), ('Req', 'a'), ('Req', 'b'), ('Req', 'c')}
 UNIONS = {'Any': [('Leaf', 'Leaf'), ('Other', 'Other'), ('Pt', 'Pt'), ('Str', 'string')],
           'Tree': [('Node', 'Node'), ('Leaf', 'Leaf'), ('Other', 'Other')]}   # code = index + 1
-ROOTS = ['Root', 'Leaf', 'Other', 'Sub', 'Rec', 'Node', 'Req', 'Nums', 'Geo', 'DepFirst', 'DepMid', 'DepLast', 'DepOnly', 'Tiny', 'Pt', 'Fix', 'Tri', 'Poly', 'S1', 'S2', 'S2s', 'S3']
+ROOTS = ['Root', 'Leaf', 'Other', 'Sub', 'Rec', 'Node', 'Req', 'Nums', 'Geo', 'DepFirst', 'DepMid', 'DepLast', 'DepOnly', 'Multi', 'Tiny', 'Twin', 'DpT', 'Dp1', 'Pt', 'Fix', 'Tri', 'Poly', 'S1', 'S2', 'S2s', 'S3']
 
 # powers of ten and of two with their neighbours: digit-count boundaries of the integer printers
 _GRID = sorted(set([10 ** k + d for k in range(1, 20) for d in (-1, 0, 1)] + [2 ** k + d for k in (31, 32, 33, 63) for d in (-1, 0, 1)] +
